@@ -37,6 +37,10 @@ BEHAVIOURS = {
     "fail-pending-postfix": "{ int32_t i = 0; RdV = i++ + no_such_function(RtV); }",
     "fail-pending-stmtexpr": "{ RdV = ({ RxV = RsV; RxV; }) + no_such_function(RtV); }",
     "fail-pending-imm": "{ RdV = siV + no_such_function(uiV); }",
+    # failures before anything was registered (the failing construct itself sets per-behaviour flags first)
+    "fail-jump-first": "{ JUMP(next_pc); }",
+    "fail-load-first": "{ mem_load_u32(addr); }",
+    "fail-pred-first": "{ P1 = nosuch; }",
     # every operand kind written only / read only / plain and .new (objects that describe an operand carry an access
     # mode and a read counter: they must not outlive the behaviour that created them)
     "alias-write": "{ HEX_REG_ALIAS_LR = RsV; HEX_REG_ALIAS_SA0 = RtV; }",
